@@ -886,6 +886,73 @@ func c19Roots(c *Ctx, env *provEnv) {
 				return true
 			})
 		}
+		if !okBoth {
+			// or a chain of strings.ReplaceAll on the way from the parameter to every return,
+			// covering both separators, none of the replacement texts containing one
+			sinfo := sn.Pkg.TypesInfo
+			var walk func(e ast.Expr, depth int, olds map[string]bool) bool
+			walk = func(e ast.Expr, depth int, olds map[string]bool) bool {
+				e = unparen(e)
+				if depth > 6 {
+					return false
+				}
+				switch x := e.(type) {
+				case *ast.CallExpr:
+					f := calleeOf(&CallSite{Call: x, In: sn})
+					if f == nil || f.Pkg() == nil || f.Pkg().Path() != "strings" || f.Name() != "ReplaceAll" || len(x.Args) != 3 {
+						return false
+					}
+					o, ok1 := constString(sinfo, x.Args[1])
+					nw, ok2 := constString(sinfo, x.Args[2])
+					if !ok1 || !ok2 || strings.ContainsAny(nw, "/\\") {
+						return false
+					}
+					olds[o] = true
+					return walk(x.Args[0], depth+1, olds)
+				case *ast.Ident:
+					obj := sinfo.ObjectOf(x)
+					// the parameter as it came in, or what was assigned to it / to the local
+					okAll, ndef := true, 0
+					ast.Inspect(sn.Body(), func(m ast.Node) bool {
+						if as, isAs := m.(*ast.AssignStmt); isAs && as.End() <= x.Pos() {
+							for i, l := range as.Lhs {
+								if lid, isId := l.(*ast.Ident); isId && sinfo.ObjectOf(lid) == obj && i < len(as.Rhs) {
+									ndef++
+									if !walk(as.Rhs[i], depth+1, olds) {
+										okAll = false
+									}
+								}
+							}
+						}
+						return true
+					})
+					if ndef == 0 {
+						for _, po := range sn.params(sinfo) {
+							if po == obj {
+								return true
+							}
+						}
+						return false
+					}
+					return okAll
+				}
+				return false
+			}
+			nret, okChain := 0, true
+			ast.Inspect(sn.Body(), func(m ast.Node) bool {
+				if r, isR := m.(*ast.ReturnStmt); isR && len(r.Results) == 1 {
+					nret++
+					olds := map[string]bool{}
+					if !walk(r.Results[0], 0, olds) || !olds["/"] || !olds["\\"] {
+						okChain = false
+					}
+				}
+				return true
+			})
+			if nret > 0 && okChain {
+				okBoth = true
+			}
+		}
 		c.Check(okBoth, "R19.3", "sanitise replaces '/' and '\\\\'", sn.Pos(), "the replacer maps both separators", "a separator survives in recording file names")
 	}
 }
